@@ -102,17 +102,29 @@ def r17_4(ctx):
             desc = k[0] == "agg" and (k[1] or "").endswith("Reverse") and mentions(k, lambda x: x[0] == "call" and x[1] == "router::route::Route::priority")
             r.ob("priority:descending-priority", desc, a.site, "sort key is %s" % show(k))
         for f in (a, b):
+            # first() of the sorted list, or into_iter().next() of it
+            pvf = Prov(f, copies=True)
             firsts = [1 for bi, t, cal in f.calls() if cal and cal.name == "first"]
-            r.ob("priority:first-after-sort:%s" % f.name, len(firsts) == 1, f.site, "the selected route is first() of the sorted list")
+            firsts += [1 for bi, t, cal in f.calls() if cal and cal.name == "next" and cal.def_trait == "std::iter::Iterator" and isinstance(t.get("s"), int)
+                       and cal.adt in ("std::vec::IntoIter", "std::slice::Iter")]
+            r.ob("priority:first-after-sort:%s" % f.name, len(firsts) == 1, f.site, "the selected route is the first element of the sorted list")
         # trace_request normalises the request before tracing
         g = F.method(LY.ROUTER, "trace_request")
         r.analysed(g)
         pv = Prov(g)
         ok = False
+        def is_rebuild(e, req):
+            return e[0] == "call" and e[1] == "http::request::Request::rebuild_with_config" and mentions(e, lambda x: x == req)
         for bi, t, cal in g.calls():
             if cal and cal.local and cal.name == "trace":
                 arg = pv.operand(t["args"][1])
-                ok = arg[0] == "call" and arg[1] == "http::request::Request::rebuild_with_config" and mentions(arg, lambda x: x == ("param", 2))
+                ok = is_rebuild(arg, ("param", 2))
+                if not ok and arg[0] == "call" and arg[2] and arg[2][-1] == ("param", 2):
+                    # a one-line wrapper of the router that returns rebuild_with_config(config, request)
+                    w = F.fn(arg[1], required=False)
+                    if w is not None and w.adt == LY.ROUTER:
+                        rets = {p.end[1] for p in Sym(w, copies=True).paths() if p.end[0] == "ret"}
+                        ok = len(rets) == 1 and all(is_rebuild(e, ("param", w.argc)) for e in rets)
         r.ob("trace:normalised-request", ok, g.site, "matcher.trace receives rebuild_with_config(config, request)")
     ctx.run_rule("R17.4", "same priority key in get_route and get_trace; trace runs on the normalised request", body, floor=5)
 
